@@ -287,8 +287,11 @@ fn branch_doc(trivia: &Trivia, branch: &Branch, multi_branch: bool) -> Doc {
 /// a frame-free single chain, which both the compiler and the formatter's own strip pass remove —
 /// so this render-time wrap is bytecode-neutral and idempotent. `body` is the already-rendered doc.
 fn wrap_breaking_body(sequence: &Sequence, body: Doc, multi_branch: bool) -> Doc {
+    // Only a frame-free chain: braces around a binding or an in-chain match are a real scope /
+    // narrowing barrier that neither the compiler nor the strip pass removes.
     let breaking_pipeline = matches!(sequence.chains.as_slice(), [chain]
-        if chain.terms.last().is_some_and(|term| !is_breakable_container(term)));
+        if chain.terms.last().is_some_and(|term| !is_breakable_container(term))
+            && crate::simplify::is_frame_free_chain(chain));
     if multi_branch && breaking_pipeline && pretty::forces_break(&body) {
         pretty::concat(vec![
             pretty::text("{"),
